@@ -58,6 +58,11 @@ def enumerate_cases(tier):
             for s in names + ["zz"]:
                 for t in names + ["q"]:
                     yield {"src": "enum", "nv": nv, "r1": r1, "r2": r2, "am": (1, 0), "op": "rename", "arg": [s, t]}
+    # ill-formed constructor arguments over the polyhedral theory, the offending variable entering with an ordinary or a tiny coefficient
+    for kind in ("assumption-on-output", "assumption-on-unknown", "guarantee-on-unknown", "fine"):
+        for eps in (1.0, 2.0 ** -30, 1e-12):
+            for simplify in (True, False):
+                yield {"src": "enum", "op": "construct-poly", "arg": kind, "eps": eps, "simplify": simplify, "nv": 3, "r1": "", "r2": "", "am": (0, 0)}
     # ill-formed constructor arguments
     for kind in ("dup-input", "dup-output", "overlap", "assumption-on-output", "assumption-on-unknown", "guarantee-on-unknown", "fine"):
         for simplify in (True, False):
@@ -113,6 +118,22 @@ def _run_enum(case):
     op = case["op"]
     labels = ["src:enum", "op:" + op]
     V = env.Var
+    if op == "construct-poly":
+        kind, eps = case["arg"], case["eps"]
+        a = [[{"a": 1.0}, 3.0]]
+        g = [[{"a": 1.0, "x": 1.0}, 5.0]]
+        if kind == "assumption-on-output":
+            a = [[{"a": 1.0, "x": eps}, 3.0]]
+        elif kind == "assumption-on-unknown":
+            a = [[{"a": 1.0, "q": eps}, 3.0]]
+        elif kind == "guarantee-on-unknown":
+            g = [[{"a": 1.0, "x": 1.0, "q": eps}, 5.0]]
+        else:
+            g = [[{"a": 1.0, "x": 1.0, "b": eps}, 5.0]]
+        status, res = env.call("PolyhedralIoContract()", env.C, {"i": ["a", "b"], "o": ["x"], "a": a, "g": g}, case["simplify"])
+        verdict = ("ok", {"a", "b"}, {"x"}) if kind == "fine" else ("reject", kind)
+        return {"viol": judge("constructor", verdict, status, res), "nontrivial": True,
+                "labels": labels + ["ctor:" + kind, "eps:%g" % eps], "outcome": "judged"}
     if op == "construct":
         finite.World.reset(["a", "b", "x"], [], "exact")
         kind = case["arg"]
